@@ -48,6 +48,9 @@ type WireMsg struct {
 type Party struct {
 	Name     string
 	Peer     string
+	// Cc: further endpoints that receive everything this party sends (the peer's account is logged in
+	// from more than one client; the transport hands a message to all of them)
+	Cc []string
 	Conv     *otr3.Conversation
 	Rand     *JRand
 	Priv     *otr3.DSAPrivateKey
@@ -356,6 +359,7 @@ func (w *World) AbsState(p *Party) M {
 	st["renc"] = s.RecentEnc
 	st["inj"] = s.Injections
 	held, kept, dirty := []int{}, []int{}, []int{}
+	st["smpheld"] = 0
 	if w.Scan {
 		held, kept, dirty = w.scan(p, st)
 	}
@@ -477,9 +481,26 @@ func (w *World) emit(p *Party, out []otr3.ValidMessage) []M {
 		p.Tag = otr3.VerifProject(p.Conv).OurTag
 	}
 	for _, g := range groupOutputs(out) {
-		wm := &WireMsg{ID: len(w.Wire) + 1, From: p.Name, To: p.Peer, Raw: g}
+		to := p.Peer
+		if len(p.Cc) > 0 {
+			// the message is resolved with the secrets of the client instance it is addressed to
+			var rt uint32
+			if full, err := ref.Reassemble(g); err == nil {
+				if raw, err := ref.Dearmor(full); err == nil {
+					if h, err := ref.ParseHeader(raw); err == nil && h.Version == 3 {
+						rt = h.RT
+					}
+				}
+			}
+			for _, c := range p.Cc {
+				if q := w.P[c]; q != nil && rt != 0 && q.Tag == rt {
+					to = c
+				}
+			}
+		}
+		wm := &WireMsg{ID: len(w.Wire) + 1, From: p.Name, To: to, Raw: g}
 		w.lastKeys = nil
-		wm.Abs = w.Abs(g, p.Name, p.Peer)
+		wm.Abs = w.Abs(g, p.Name, to)
 		wm.Keys = w.lastKeys
 		if hr, ok := wm.Abs["hashraw"].([]byte); ok {
 			wm.HashRaw = hr
@@ -489,6 +510,11 @@ func (w *World) emit(p *Party, out []otr3.ValidMessage) []M {
 		w.Wire = append(w.Wire, wm)
 		if q := w.P[p.Peer]; q != nil {
 			q.Queue = append(q.Queue, wm)
+		}
+		for _, c := range p.Cc {
+			if q := w.P[c]; q != nil {
+				q.Queue = append(q.Queue, wm)
+			}
 		}
 		res = append(res, wm.Abs)
 	}
@@ -583,7 +609,11 @@ func (w *World) Init() {
 
 // Done writes the end-of-run event (queue lengths) used by end-of-run properties.
 func (w *World) Done() {
-	ev := M{"ev": "Done", "p": "A", "i": w.N + 1, "qa": len(w.P["A"].Queue), "qb": len(w.P["B"].Queue)}
+	qb := len(w.P["B"].Queue)
+	if c := w.P["C"]; c != nil && !c.Mute {
+		qb += len(c.Queue)
+	}
+	ev := M{"ev": "Done", "p": "A", "i": w.N + 1, "qa": len(w.P["A"].Queue), "qb": qb}
 	w.N++
 	if w.Trace != nil {
 		b, _ := json.Marshal(ev)
@@ -910,5 +940,13 @@ func (w *World) scan(p *Party, st M) (held, kept, dirty []int) {
 		n++
 	}
 	sort.Ints(kept)
+	// the random exponents of SMP runs (as bytes or as the integer they were turned into)
+	nsmp := 0
+	for _, v := range p.Rand.SMPVals {
+		if contains(v) || contains(bytes.TrimLeft(v, "\x00")) {
+			nsmp++
+		}
+	}
+	st["smpheld"] = nsmp
 	return
 }
